@@ -35,7 +35,9 @@ def gen(rng, tier, quarantine=()):
             ctx = [c for c in ctx if "param" not in forms[c]]
         sel = simple_sel(qual, focus=focus, caps=ctx)
         ops.append({"op": "mk", "id": f"p{i}", "sels": [sel], "style": rng.randrange(2),
-                    "inv": "C02.stream"})
+                    "inv": "C02.stream",
+                    # raw captures are read after the operation: not for values mutated in place meanwhile
+                    "raw": rng.random() < 0.3 and focus not in fnir.get("mutable", ())})
         ops.append({"op": "enter", "id": f"p{i}"})
     tl = 24 if tier == "quick" else 48
     short = qual.split(".")[-1]
